@@ -365,7 +365,7 @@ func (s *Server) handleMessage(msg json.RawMessage) {
 	// Handle the request
 	if req.ID != nil {
 		// It's a request expecting a response
-		result, err := s.handler.HandleRequest(req.Method, req.Params)
+		result, err := s.safeHandleRequest(req.Method, req.Params)
 		if err != nil {
 			s.sendError(req.ID, InternalError, err.Error())
 		} else {
@@ -373,8 +373,31 @@ func (s *Server) handleMessage(msg json.RawMessage) {
 		}
 	} else {
 		// It's a notification
-		s.handler.HandleNotification(req.Method, req.Params)
+		s.safeHandleNotification(req.Method, req.Params)
 	}
+}
+
+// safeHandleRequest runs a request handler; a panic in it becomes an error
+// response instead of ending the server.
+func (s *Server) safeHandleRequest(method string, params json.RawMessage) (result interface{}, err error) {
+	defer func() {
+		if r := recover(); r != nil {
+			s.logger.Printf("Recovered from panic in %s: %v", method, r)
+			result, err = nil, fmt.Errorf("internal error handling %s", method)
+		}
+	}()
+	return s.handler.HandleRequest(method, params)
+}
+
+// safeHandleNotification runs a notification handler; a panic in it is logged
+// and the server keeps running.
+func (s *Server) safeHandleNotification(method string, params json.RawMessage) {
+	defer func() {
+		if r := recover(); r != nil {
+			s.logger.Printf("Recovered from panic in %s: %v", method, r)
+		}
+	}()
+	s.handler.HandleNotification(method, params)
 }
 
 // handleMalformedRequest attempts to extract an ID from malformed JSON and send error
